@@ -184,7 +184,8 @@ Definition sem_arith (op : Z) (x y : value) : option value :=
   | VInt a, VInt b =>
       match exact_int a op b with
       | Some z => Some (VInt z)
-      | None => if (op =? 47) && negb (b =? 0) && negb (Z.rem a b =? 0) then Some (VNum (fdiv (f_of_Z a) (f_of_Z b))) else None
+      | None => if (op =? 47) && negb (b =? 0) && negb (Z.rem a b =? 0) && negb (feqb (f_of_Z b) fzero)
+                then Some (VNum (fdiv (f_of_Z a) (f_of_Z b))) else None
       end
   | _, _ =>
       match num_of x, num_of y with
@@ -216,7 +217,7 @@ Fixpoint den (f : facts) (e : aexp) : option value :=
 
 (** retract(X) marks X: every field comparison on a retracted object is false *)
 Definition retracted (f : facts) (p : list str) : bool :=
-  match fget f (retracted_key (match p with x :: _ => x | [] => [] end)) with Some (VBool true) => true | _ => false end.
+  match fget f (retracted_key (first_part (join_dot p))) with Some (VBool true) => true | _ => false end.
 
 (** equality: defined within a kind; undefined across the coercible pairs; false across unrelated kinds *)
 Fixpoint sem_eq (x y : value) {struct x} : option bool :=
@@ -271,27 +272,124 @@ Definition sem_cmp (o : oper) (x y : value) : option bool :=
   | _ => None
   end.
 
-Fixpoint den_cond (f : facts) (c : scond) : option bool :=
+(** [strict]: a string literal on the right-hand side that happens to name an existing fact or field
+    path makes the comparison undefined (the engine reads the fact instead: known finding
+    C01-string-literal-names-a-fact).  The monitor uses strict = false (the literal is a literal). *)
+Definition names_fact (f : facts) (r : aexp) : bool :=
+  match r with
+  | ALit (LStr s) => match get_nested f s, fget f s with None, None => false | _, _ => true end
+  | _ => false end.
+
+Fixpoint den_cond (strict : bool) (f : facts) (c : scond) : option bool :=
   match c with
   | SCmp l o r =>
       match l with
       | AField p =>
           if retracted f p then Some false
+          else if strict && names_fact f r then None
           else match (match r with AField q => Some (rlookup f (join_dot q)) | _ => den f r end) with
                | Some y => sem_cmp o (slookup f (join_dot p)) y
                | None => None end
       | _ => match den f l, den f r with Some x, Some y => sem_cmp o x y | _, _ => None end
       end
-  | SAnd a b => match den_cond f a, den_cond f b with
+  | SAnd a b => match den_cond strict f a, den_cond strict f b with
                 | Some x, Some y => Some (x && y)
                 | Some false, None | None, Some false => Some false      (* one false conjunct decides *)
                 | _, _ => None end
-  | SOr a b => match den_cond f a, den_cond f b with
+  | SOr a b => match den_cond strict f a, den_cond strict f b with
                | Some x, Some y => Some (x || y)
                | Some true, None | None, Some true => Some true         (* one true disjunct decides *)
                | _, _ => None end
-  | SNot a => match den_cond f a with Some x => Some (negb x) | None => None end
+  | SNot a => match den_cond strict f a with Some x => Some (negb x) | None => None end
   end.
+
+(** ---------- well-formed trees and the tree-level evaluator (used by the theorems) ---------- *)
+Notation ws := ws_unicode.
+
+Definition plain (c : Z) : bool :=
+  negb (ws c) && negb (is_arith c) && negb (c =? 40) && negb (c =? 41) && negb (c =? 34) && negb (c =? 39).
+
+Definition is_addop (op : Z) : bool := (op =? 43) || (op =? 45).
+Definition is_mulop (op : Z) : bool := (op =? 42) || (op =? 47) || (op =? 37).
+
+(** an atom's text: plain characters; or a minus sign followed by plain characters; or a quoted string
+    without its own quote character inside *)
+Definition atom_text_ok (t : str) : bool :=
+  match t with
+  | [] => false
+  | c :: r => forallb plain t
+              || ((c =? 45) && match r with [] => false | _ => forallb plain r end)
+              || (((c =? 34) || (c =? 39)) && match rev r with d :: m => (d =? c) && negb (memc c m) | [] => false end)
+  end.
+
+Definition top_add (e : aexp) : bool := match e with ABin op _ _ => is_addop op | _ => false end.
+Definition is_bin (e : aexp) : bool := match e with ABin _ _ _ => true | _ => false end.
+
+(** trees whose printed text parses back to themselves: the right operand of + - has no top-level + -,
+    the left operand of * / % has none either and its right operand is an atom or parenthesised *)
+Fixpoint wf (e : aexp) : bool :=
+  match e with
+  | ALit l => atom_text_ok (pr_lit l)
+  | AField p => atom_text_ok (join_dot p)
+  | APar a => wf a
+  | ABin op a b => wf a && wf b && (if is_addop op then negb (top_add b) else is_mulop op && negb (top_add a) && negb (is_bin b))
+  end.
+
+(** the tree-level evaluator: leaves as the code reads them, operators by apply_operator *)
+Fixpoint meval (f : facts) (e : aexp) : eres :=
+  match e with
+  | ALit l => eleaf f (pr_lit l)
+  | AField p => eleaf f (join_dot p)
+  | APar a => meval f a
+  | ABin op a b => match meval f a with
+                   | EOk x => match meval f b with EOk y => apply_operator x op y | r => r end
+                   | r => r end
+  end.
+
+(** ---------- the typed core: static conditions on a rule, each decidable by evaluating the printed atom ---------- *)
+(** conditions on the atoms of an arithmetic expression, decidable by evaluation on each atom's text:
+    a literal is read back as its value; a field name is not read as a literal *)
+Fixpoint atoms_ok (e : aexp) : Prop :=
+  match e with
+  | ALit l => exists v, den_lit l = Some v /\ eleaf [] (pr_lit l) = EOk v
+  | AField p => eleaf [] (join_dot p) = EErr
+  | APar a => atoms_ok a
+  | ABin _ a b => atoms_ok a /\ atoms_ok b
+  end.
+
+Definition cmpc (c : Z) : bool := (c =? 60) || (c =? 61) || (c =? 62) || (c =? 33).
+Definition nocmp (s : str) : bool := forallb (fun c => negb (cmpc c)) s.
+Definition is_cmp6 (o : oper) : bool := match o with OEq | ONe | OGt | OGe | OLt | OLe => true | _ => false end.
+
+Definition rhs_ok (r : aexp) : Prop :=
+  match r with
+  | ALit l => exists v, den_lit l = Some v /\ parse_val (pr_lit l) = v
+  | AField q => atom_text_ok (join_dot q) = true /\ eleaf [] (join_dot q) = EErr
+                /\ parse_val (join_dot q) = VExpr (join_dot q) /\ forallb field_char (join_dot q) = true
+  | _ => wf r = true /\ atoms_ok r /\ parse_val (pr r) = VExpr (pr r)
+  end.
+
+Definition ctest_rhs_ok (r : aexp) : Prop :=
+  (exists z, r = ALit (LInt z) /\ parse_i64 (pr r) = Some z)
+  \/ (exists t x, r = ALit (LNum t) /\ parse_i64 t = None /\ parse_f64 t = Some x)
+  \/ (parse_i64 (pr r) = None /\ parse_f64 (pr r) = None).
+
+Definition cmp_ok (l : aexp) (o : oper) (r : aexp) : Prop :=
+  match l with
+  | AField p => rhs_ok r
+  | _ => lhs_simple l = true /\ wf l = true /\ atoms_ok l /\ is_cmp6 o = true /\ wf r = true /\ atoms_ok r /\ ctest_rhs_ok r
+         /\ nocmp (pr l) = true /\ nocmp (pr r) = true
+  end.
+
+Fixpoint cond_ok (c : scond) : Prop :=
+  match c with
+  | SCmp l o r => cmp_ok l o r
+  | SAnd a b | SOr a b => cond_ok a /\ cond_ok b
+  | SNot a => cond_ok a
+  end.
+
+Definition rule_ok (r : srule) : Prop := cond_ok (sr_cond r) /\ Forall (fun pe => rhs_ok (snd pe)) (sr_sets r).
+
 
 (** ---------- one consideration, in both readings ---------- *)
 Inductive sres := SFire (f : facts) | SNoFire | SAbort (k : Z).
@@ -305,8 +403,8 @@ Definition model_step (f : facts) (r : rule) : sres :=
   end.
 
 (** None: the documented semantics does not define this consideration *)
-Definition sem_step (f : facts) (r : srule) : option sres :=
-  match den_cond f (sr_cond r) with
+Definition sem_step (strict : bool) (f : facts) (r : srule) : option sres :=
+  match den_cond strict f (sr_cond r) with
   | None => None
   | Some false => Some SNoFire
   | Some true =>
@@ -511,6 +609,44 @@ Definition run_sx (c : sx) : sx :=
       | None => sx_bad end
   | None => sx_bad end.
 
+(** boolean counterparts of the static conditions, used only to COUNT how many generated cases lie
+    within the hypotheses of the run theorem (value equality is compared on the wire encoding) *)
+Definition val_same (a b : value) : bool := sx_eqb (enc_val a) (enc_val b).
+Definition eres_is (r : eres) (v : value) : bool := match r with EOk x => val_same x v | _ => false end.
+Definition is_eerr (r : eres) : bool := match r with EErr => true | _ => false end.
+Definition is_vexpr_of (v : value) (t : str) : bool := match v with VExpr s => str_eqb s t | _ => false end.
+Fixpoint atoms_okb (e : aexp) : bool :=
+  match e with
+  | ALit l => match den_lit l with Some v => eres_is (eleaf [] (pr_lit l)) v | None => false end
+  | AField p => is_eerr (eleaf [] (join_dot p))
+  | APar a => atoms_okb a
+  | ABin _ a b => atoms_okb a && atoms_okb b
+  end.
+Definition rhs_okb (r : aexp) : bool :=
+  match r with
+  | ALit l => match den_lit l with Some v => val_same (parse_val (pr_lit l)) v | None => false end
+  | AField q => atom_text_ok (join_dot q) && is_eerr (eleaf [] (join_dot q)) && is_vexpr_of (parse_val (join_dot q)) (join_dot q)
+                && forallb field_char (join_dot q)
+  | _ => wf r && atoms_okb r && is_vexpr_of (parse_val (pr r)) (pr r)
+  end.
+Definition is_none {T} (o : option T) : bool := match o with None => true | Some _ => false end.
+Definition ctest_rhs_okb (r : aexp) : bool :=
+  (match r with ALit (LInt z) => match parse_i64 (pr r) with Some z' => z' =? z | None => false end | _ => false end)
+  || (match r with ALit (LNum t) => is_none (parse_i64 t) && negb (is_none (parse_f64 t)) | _ => false end)
+  || (is_none (parse_i64 (pr r)) && is_none (parse_f64 (pr r))).
+Definition cmp_okb (l : aexp) (o : oper) (r : aexp) : bool :=
+  match l with
+  | AField p => rhs_okb r
+  | _ => lhs_simple l && wf l && atoms_okb l && is_cmp6 o && wf r && atoms_okb r && ctest_rhs_okb r && nocmp (pr l) && nocmp (pr r)
+  end.
+Fixpoint cond_okb (c : scond) : bool :=
+  match c with
+  | SCmp l o r => cmp_okb l o r
+  | SAnd a b | SOr a b => cond_okb a && cond_okb b
+  | SNot a => cond_okb a
+  end.
+Definition rule_okb (r : srule) : bool := cond_okb (sr_cond r) && forallb (fun pe => rhs_okb (snd pe)) (sr_sets r).
+
 (** the known finding C01-string-literal-names-a-fact: a quoted string on the right-hand side of a field
     comparison is looked up in the facts (engine.rs evaluate_single_condition, "rhs" for Value::String) *)
 Fixpoint strlit_rhs (c : scond) : list str :=
@@ -524,19 +660,21 @@ Definition deref_hit (rs : list srule) (states : list facts) : bool :=
   existsb (fun r => existsb (fun s => existsb (fun f => match get_nested f s, fget f s with None, None => false | _, _ => true end) states)
                             (strlit_rhs (sr_cond r))) rs.
 
-(** monitor: 1 = the observation is what the documented semantics prescribes; -1 = the documented
-    semantics leaves this run undefined (outside the property's quantifier); 0 = violation;
-    2 = violation of the known class C01-string-literal-names-a-fact *)
+(** monitor: 1 = the observation is what the documented semantics prescribes and the case lies within the
+    hypotheses of the run theorem; -2 = the same, but the case is outside those hypotheses (monitored only);
+    -1 = the documented semantics leaves this run undefined (outside the property's quantifier);
+    0 = violation; 2 = violation of the known class C01-string-literal-names-a-fact *)
 Definition ok_sx (c o : sx) : Z :=
   match dec_case c, o with
   | Some (rs, f), L [parsed; log; res] =>
       match compiled rs with
       | Some crs =>
           if negb (sx_eqb parsed (L (map (fun '(sal, r) => enc_rule sal r) crs))) then 0
-          else match run_rules sem_step (sorted_spec rs) f with
+          else match run_rules (sem_step false) (sorted_spec rs) f with
                | None => -1
                | Some (st, k, n) =>
-                   if sx_eqb (enc_run (Some (st, k, n))) (L [log; res]) then 1
+                   if sx_eqb (enc_run (Some (st, k, n))) (L [log; res])
+                   then (if forallb rule_okb rs && negb (is_none (run_rules (sem_step true) (sorted_spec rs) f)) then 1 else -2)
                    else if deref_hit rs (f :: map snd (l_log st)) then 2 else 0
                end
       | None => 0 end
